@@ -669,7 +669,12 @@ func genSizes(c *ctx, emit func(string)) {
 	for sz := 65512; sz <= 65544; sz++ {
 		bigs = append(bigs, sz)
 	}
-	nbig := len(bigs) // every tier: each size costs ~0.1 s on the model side
+	if c.tier != "thorough" {
+		// the model side costs ~3 s per 64 KiB line: quick keeps the sizes at which a
+		// frame / payload / payload+header crosses 65536 and the ends of the window
+		bigs = []int{65512, 65520, 65527, 65528, 65529, 65530, 65535, 65536, 65537, 65544}
+	}
+	nbig := len(bigs)
 	step := len(bigs) / nbig
 	for k := 0; k < nbig; k++ {
 		sz := bigs[(k*step+int(c.seed))%len(bigs)]
